@@ -15,6 +15,11 @@
    concurrent streams, bodies 0 .. MBs, paused readers, uploads larger than sozu's own windows).
    In 3 and 4 the endpoint owns the ledger; TLC validates every recorded connection against
    spec/Trace_H2Flow.tla (one file per role of sozu) and names the P_C14 formula that fails.
+   Full-duplex schedules (fixed + seeded): the endpoint stops reading while bodies far larger than the socket
+   buffers flow towards it - sozu's write blocks in the middle of a DATA frame - and keeps SENDING on the same
+   connection (DATA, then PING / SETTINGS / an illegal WINDOW_UPDATE): the control frames sozu owes must wait
+   for the frame boundary (P_C14_WholeFrames at the ledger; spec/H2Wire.tla is the model of the writer, TLC
+   refutes each slip of that class).  The mux_ready_exit hook counts how often the situation was realised.
 5. Canary (self-test of the binding): a copy of a trace with one DATA frame enlarged beyond its window must
    be rejected, otherwise exit 2.
 """
@@ -23,6 +28,7 @@ import os
 import re
 
 import vlib
+from props import h2wire
 
 PID = "C14"
 
@@ -49,7 +55,7 @@ CONSTANTS
 %(checks)s
 CHECK_DEADLOCK FALSE
 """
-SAFETY = ("INVARIANTS TypeOK P_C14_Windows P_C14_NewStreamWindow P_C14_FrameSize P_C14_MaxStreams P_C14_StreamIds "
+SAFETY = ("INVARIANTS TypeOK P_C14_Windows P_C14_NewStreamWindow P_C14_FrameSize P_C14_WholeFrames P_C14_MaxStreams P_C14_StreamIds "
           "P_C14_Hpack P_C14_StreamStates P_C14_OwnWindows P_C14_Progress P_C14_NeverDropped P_C14_OwedIsEnabled\n"
           "PROPERTIES P_C14_WindowSteps")
 ACTIONS = ["Peer_Settings", "Peer_Open", "Peer_Respond", "Peer_WindowUpdate", "Peer_SendData", "Peer_Starve", "Sozu_Settings",
@@ -413,6 +419,9 @@ def run(tier, replay=None):
             raise vlib.ToolError("deviation %s no longer violates P_C14 in the model" % d)
         vlib.log("deviation %s: TLC counterexample to %s as expected" % (d, rd["violated"]))
 
+    # 2b. the writer of the connection (spec/H2Wire.tla): whole frames only, every slip of that class refuted
+    h2wire.check(rep, wd, PID, thorough)
+
     # 3. + 4. schedules against a real worker
     scen_path = os.path.join(wd, "tlc_scenarios.ndjson")
     tlc_scen = generate_schedules(rep, wd, thorough)
@@ -423,7 +432,7 @@ def run(tier, replay=None):
     out_c = os.path.join(wd, "impl_client.ndjson")
     res = vlib.run_harness(bins["drive_h2flow"],
                            ["--seed", str(vlib.seed()), "--tier", tier, "--scenarios", scen_path, "--fixed",
-                            "--random", str(400 if thorough else 70), "--threads", "8" if thorough else "6",
+                            "--random", str(400 if thorough else 70), "--duplex", str(30 if thorough else 6), "--threads", "8" if thorough else "6",
                             "--out-server", out_s, "--out-client", out_c], timeout=2400 if thorough else 900)
     summ = [o for o in res if o.get("kind") == "summary"]
     if not summ:
@@ -433,6 +442,9 @@ def run(tier, replay=None):
     vlib.log("drive_h2flow: %d scenarios, %d connections (%d done, %d closed, %d stalled, %d garbled, %d inconclusive), %.1f MB of DATA, %.1fs" % (
         summ["scenarios"], summ["runs"], summ["done"], summ["closed"], summ["stall"], summ.get("garbled", 0), summ["inconclusive"],
         summ["data_bytes"] / 1e6, summ["wall_s"]))
+    half = (summ.get("half_frame_wu_pending", 0), summ.get("half_frame_zero_deferred", 0))
+    vlib.log("full-duplex schedules: %d park snapshots with a half-written stream frame and WINDOW_UPDATEs queued behind it, %d with an answer "
+             "deferred in the zero buffer" % half)
     if summ.get("worker_panic"):
         rep.violation("worker-panic", "the worker thread panicked: %s" % summ["worker_panic"], summ)
     for o in res:
@@ -459,6 +471,13 @@ def run(tier, replay=None):
             rep.violation(x["class"], "%s: %s at event %d (%s) of connection %s [%s]" % (
                 x["role"], x["class"], x["event_index"], json.dumps(x["event"])[:120], x["run"], x["label"]), x,
                 name="violation_%s_%s.json" % (x["role"], x["run"]))
+    # vacuity guard of the full-duplex schedules (never in the way of a violation): on a tree where the property holds
+    # the hook must have shown the situation they exist for - a control frame waiting behind a half-written stream frame
+    if not rep.violations and half[0] == 0:
+        raise vlib.ToolError("the full-duplex schedules never blocked a write inside a frame with WINDOW_UPDATEs pending "
+                             "(mux_ready_exit hook: ew >= 0 and wu > 0 never seen): machine too slow / socket buffers changed?")
+    rep.extra["half_written_frame_with_pending_window_updates_snapshots"] = half[0]
+    rep.extra["half_written_frame_with_deferred_zero_answer_snapshots"] = half[1]
     rep.cov["traces_validated_against_impl"] = total_acc
     rep.cov["evaluations"] = sum(o.get("events", 0) for o in runs_meta)
     rep.cov["distinct_nontrivial"] = len(labels)
@@ -473,7 +492,7 @@ def run(tier, replay=None):
         if o.get("outcome") in ("done", "closed"):
             by_origin.setdefault(str(o.get("label", "")).split(":")[0], []).append(
                 "%s [sozu as %s, %d ledger events, %d streams, %s]" % (o.get("label"), o.get("role"), o.get("events", 0), o.get("streams", 0), o.get("outcome")))
-    for origin in ("fixed", "tlc", "rand"):
+    for origin in ("fixed", "tlc", "rand"):  # "rand:duplex:..." labels count as rand, "fixed:...:duplex-..." as fixed
         rep.add_samples(by_origin.get(origin, [])[:: max(1, len(by_origin.get(origin, [])) // 3)], 3)
     rep.assumptions += [
         "a peer WINDOW_UPDATE is entered in the ledger when it is sent and new SETTINGS when sozu acknowledges them (exact for shrinks, never stricter than the wire for growth)",
